@@ -346,7 +346,7 @@ class ItemCreateSign(ItemMixin):
                 f"Unrecognized wood variant for sign ({variant})",
                 self.raw_args["variant"].token,
                 self.tokenizer,
-                suggestion=f"Available variants are {' '.join(repr(i) for i in self._VARIANTS)}",
+                suggestion=f"Available variants are {' '.join(repr(i) for i in sorted(self._VARIANTS))}",
             )
 
         self.args["itemType"] = variant + "_sign"
@@ -1153,7 +1153,7 @@ class GUICreate(JMCFunction):
             f'execute unless score __gui__.item_count {self.datapack.var_name} matches 0 unless score __gui__.item_count {self.datapack.var_name} matches {gui.length} run {self.datapack.call_func(f"gui/{name}", "container_changed")}'
         )
         self.datapack.add_private_json(
-            "tags/items", f"gui/{name}", {"values": list(gui.item_types)}
+            "tags/items", f"gui/{name}", {"values": sorted(gui.item_types)}
         )
         item_tags = f"#{
             self.datapack.namespace}:{
